@@ -2021,6 +2021,14 @@ def const_program(r):
             main.append({'k': 'const', 'name': nm, 'e': e})
             main.append({'k': 'print', 'items': [[['var', nm], ';'],
                                                  [['bin', '+', ['var', nm], ['lit', '%', 1]], '']]})
+            if r.random() < 0.25:
+                # a string CONST defined through another string CONST
+                s1, s2 = fresh('ks', '$'), fresh('ks', '$')
+                main.append({'k': 'const', 'name': s1, 'e': ['lit', '$', r.choice(('q', 'ab', ''))]})
+                main.append({'k': 'const', 'name': s2,
+                             'e': ['bin', '+', ['var', s1], ['lit', '$', r.choice(('x', '', 'q'))]]})
+                main.append({'k': 'print', 'items': [[['lit', '$', f'<{len(main)}>'], ';'], [['var', s2], ';'],
+                                                     [['fn', 'len', [['var', s2]]], '']]})
             if r.random() < 0.4:
                 # a CONST defined in terms of another one (whose value may be
                 # one the compiler cannot compute)
